@@ -109,6 +109,33 @@ func c14PartsInStore(d *Driver, w *world.World, spec world.Spec, bucket, key, mv
 		}
 	}
 	d.rc.Stats.Add("c14.parts_checked", int64(len(ps)))
+	// ... and that the bytes stored there are the object's bytes: a GET is limited to the recorded
+	// sizes and would hide a part that was stored with extra bytes
+	if mb := d.M.Buckets[bucket]; mb != nil && mb.Keys[key] != nil {
+		ver := mb.Current(key)
+		if mv != "-" && mv != "" {
+			ver = nil
+			for _, x := range mb.Keys[key].Versions {
+				if x.ID == mv {
+					ver = x
+				}
+			}
+		}
+		if ver != nil && !ver.Marker {
+			var got []byte
+			for _, p := range ps {
+				b, err := c39ReadTop(context.Background(), w, p[0], p[1])
+				if err != nil {
+					return d.rc.Fail("routing", "part-unreadable-in-target-store", "%s the part %s cannot be read from the target store %q: %v", when, p[1], want, err)
+				}
+				got = append(got, b...)
+			}
+			if !bytes.Equal(got, ver.Body()) {
+				return d.rc.Fail("routing", "part-bytes-in-target-store", "%s the parts of %s/%s stored in %q hold %d bytes, the object has %d (%s)", when, bucket, key, want, len(got), len(ver.Body()), pstDiff(ver.Body(), got))
+			}
+			d.rc.Stats.Inc("c14.part_bytes_checked")
+		}
+	}
 	return nil
 }
 
